@@ -45,12 +45,12 @@ func gammaIncA() []float64 {
 func gammaIncX(a float64) []float64 {
 	xs := []float64{
 		0, 5e-324, 1e-300, 0x1p-53, 0x1p-52, 1e-10, 1e-3,
-		0.2,                                  // half-integer finite sum switch
-		0.5, 0.6, 1.0, 1.1,                   // small-x method switches, integer finite sum switch
-		(a + math.Sqrt(a*a+4.0/3.0)) / 2,     // x - 1/(3x) = a : series / continued fraction
-		a, a * 0.6, a * 1.4,                  // sigma = 0.4 (Temme, 20 < a <= 200)
-		a / 4, a * 4,                         // log forms for a >= 170
-		10, 708, 709, 710, 744, 745, 746,     // MaxLogFloat64, -MinLogFloat64, limit of the prefix
+		0.2,                // half-integer finite sum switch
+		0.5, 0.6, 1.0, 1.1, // small-x method switches, integer finite sum switch
+		(a + math.Sqrt(a*a+4.0/3.0)) / 2, // x - 1/(3x) = a : series / continued fraction
+		a, a * 0.6, a * 1.4,              // sigma = 0.4 (Temme, 20 < a <= 200)
+		a / 4, a * 4, // log forms for a >= 170
+		10, 708, 709, 710, 744, 745, 746, // MaxLogFloat64, -MinLogFloat64, limit of the prefix
 		1e4, 1e6, 1e10, 1e100, 1e300,
 	}
 	if a > 1 {
